@@ -8,6 +8,7 @@ import (
 	"sort"
 	"strconv"
 	"strings"
+	"sync"
 	"testing"
 	"time"
 
@@ -16,7 +17,10 @@ import (
 	apiruntime "k8s.io/apimachinery/pkg/runtime"
 	"k8s.io/apimachinery/pkg/types"
 	"k8s.io/client-go/informers"
+	coreinformers "k8s.io/client-go/informers/core/v1"
+	"k8s.io/client-go/kubernetes"
 	kubefake "k8s.io/client-go/kubernetes/fake"
+	k8scache "k8s.io/client-go/tools/cache"
 	"k8s.io/client-go/tools/record"
 	fwktype "k8s.io/kube-scheduler/framework"
 	"k8s.io/kubernetes/pkg/scheduler/framework"
@@ -85,7 +89,41 @@ func (h *c04pHandle) IterateOverWaitingPods(cb func(fwktype.WaitingPod)) {
 	h.ExtendedHandle.IterateOverWaitingPods(func(wp fwktype.WaitingPod) { cb(&c04pWP{WaitingPod: wp, rec: h.rec}) })
 }
 
+// The pod informer of the framework's factory is a capture wrapper around the ordinary (running) pod informer,
+// pre-registered through InformerFor: events flow as usual, and every handler anybody registers on it — in particular the
+// one core.NewPodGroupManager registers — is recorded, so that the tombstone stream can hand a delete to the registered
+// handlers in the shape a re-list produces (cache.DeletedFinalStateUnknown by value), which a fake clientset never does.
+type c04pCapInformer struct {
+	k8scache.SharedIndexInformer
+	mu  sync.Mutex
+	got []k8scache.ResourceEventHandler
+}
+
+func (c *c04pCapInformer) record(h k8scache.ResourceEventHandler) {
+	c.mu.Lock()
+	c.got = append(c.got, h)
+	c.mu.Unlock()
+}
+func (c *c04pCapInformer) AddEventHandler(h k8scache.ResourceEventHandler) (k8scache.ResourceEventHandlerRegistration, error) {
+	c.record(h)
+	return c.SharedIndexInformer.AddEventHandler(h)
+}
+func (c *c04pCapInformer) AddEventHandlerWithResyncPeriod(h k8scache.ResourceEventHandler, d time.Duration) (k8scache.ResourceEventHandlerRegistration, error) {
+	c.record(h)
+	return c.SharedIndexInformer.AddEventHandlerWithResyncPeriod(h, d)
+}
+func (c *c04pCapInformer) AddEventHandlerWithOptions(h k8scache.ResourceEventHandler, o k8scache.HandlerOptions) (k8scache.ResourceEventHandlerRegistration, error) {
+	c.record(h)
+	return c.SharedIndexInformer.AddEventHandlerWithOptions(h, o)
+}
+func (c *c04pCapInformer) handlers() []k8scache.ResourceEventHandler {
+	c.mu.Lock()
+	defer c.mu.Unlock()
+	return append([]k8scache.ResourceEventHandler(nil), c.got...)
+}
+
 type c04pSuit struct {
+	podCap *c04pCapInformer
 	fh     framework.Framework
 	plugin *Coscheduling
 	cs     *kubefake.Clientset
@@ -119,6 +157,11 @@ func c04pNewSuit() (*c04pSuit, error) {
 		schedulertesting.RegisterPluginAsExtensions(Name, proxyNew, "PreEnqueue", "PreFilter", "Reserve", "Permit", "PostBind"),
 	}
 	informerFactory := informers.NewSharedInformerFactory(su.cs, 0)
+	informerFactory.InformerFor(&corev1.Pod{}, func(client kubernetes.Interface, resync time.Duration) k8scache.SharedIndexInformer {
+		su.podCap = &c04pCapInformer{SharedIndexInformer: coreinformers.NewFilteredPodInformer(client, metav1.NamespaceAll, resync,
+			k8scache.Indexers{k8scache.NamespaceIndex: k8scache.MetaNamespaceIndexFunc}, nil)}
+		return su.podCap
+	})
 	fh, err := schedulertesting.NewFramework(context.TODO(), registered, "koord-scheduler",
 		runtime.WithClientSet(su.cs),
 		runtime.WithInformerFactory(informerFactory),
@@ -134,6 +177,9 @@ func c04pNewSuit() (*c04pSuit, error) {
 		return nil, fmt.Errorf("plugin is %T", plugin)
 	}
 	su.fh, su.plugin = fh, gp
+	if su.podCap == nil || len(su.podCap.handlers()) == 0 {
+		return nil, fmt.Errorf("no event handler was registered on the pod informer of the framework's informer factory")
+	}
 	fh.SharedInformerFactory().Start(su.stop)
 	fh.SharedInformerFactory().WaitForCacheSync(su.stop)
 	gp.pgInformerFactory.Start(su.stop)
@@ -250,6 +296,8 @@ type c04pPod struct {
 	seenNode bool
 	flight   int // 0 none 1 parked 2 released 3 rejected
 	rev      int
+	inAPI    bool // the pod object exists in the (fake) API server
+	gone     bool // the pod's delete event was delivered (object or tombstone) and nothing has named the pod since
 }
 
 func TestVerifC04Plugin(t *testing.T) {
@@ -259,6 +307,14 @@ func TestVerifC04Plugin(t *testing.T) {
 	}
 	ctx := context.TODO()
 	n := h.N(1500, 20000)
+	// tombstone stream (the last nTomb cases): members that hold resources vanish more often, and two deletes out of three
+	// reach the handlers registered on the pod informer as a re-list tombstone (DeletedFinalStateUnknown by value around
+	// the API's last object) instead of through the watch; the API object itself is removed later (a plain delete event
+	// for a pod the cache has already forgotten) or at the end of the case.
+	nTomb := n / 5
+	if v := vEnvInt("VERIF_C04_NTOMB", -1); v >= 0 {
+		nTomb = v
+	}
 	lost := 0
 	var awaitDur time.Duration
 	// one framework + plugin + informers for the whole run (building it costs ~0.3 s); every case lives in its own
@@ -268,7 +324,8 @@ func TestVerifC04Plugin(t *testing.T) {
 		t.Fatalf("fixture: %v", err)
 	}
 	defer close(su.stop)
-	for idx := 0; idx < n; idx++ {
+	for idx := 0; idx < n+nTomb; idx++ {
+		tomb := idx >= n
 		if lost >= 3 {
 			break // the informer path is broken (reported above): every further event would only wait for its timeout
 		}
@@ -395,6 +452,24 @@ func TestVerifC04Plugin(t *testing.T) {
 		}
 		prev, _ := summaries()
 		released, strictRejects := 0, 0
+		if tomb {
+			h.Tag("tombstone-stream")
+		}
+		live := func(xs []int) int { // members whose delete event the harness has not delivered
+			k := 0
+			for _, q := range xs {
+				isGone := false
+				for _, x := range pods {
+					if x.id == q && x.gone {
+						isGone = true
+					}
+				}
+				if !isGone {
+					k++
+				}
+			}
+			return k
+		}
 		begin := func() map[int]int {
 			su.rec.allowed, su.rec.rejected = nil, nil
 			return fwNow()
@@ -472,9 +547,9 @@ func TestVerifC04Plugin(t *testing.T) {
 					case d == nil:
 						h.Fail("C04:released-while-group-unsatisfied", "plugin: pod %d released but gang %d of its declared group has no valid declaration", q, x)
 					default:
-						cnt := len(s.wa)
+						cnt := live(s.wa)
 						if d.pol == 1 {
-							cnt += len(s.bo)
+							cnt += live(s.bo)
 						}
 						if cnt < d.min && !(d.pol == 2 && (groupSatisfied(gq) || groupSatisfied(x))) {
 							h.Fail("C04:released-while-group-unsatisfied", "plugin: pod %d released but gang %d holds %d < declared min %d (declared policy %d)", q, x, cnt, d.min, d.pol)
@@ -693,7 +768,7 @@ func TestVerifC04Plugin(t *testing.T) {
 			if ways[ps.g] != 0 && decl[ps.g] == nil {
 				declare(ps.g, cfgs[ps.g])
 			}
-			ps.added = true
+			ps.added, ps.inAPI, ps.gone = true, true, false
 			if node {
 				ps.bound, ps.seenNode = true, true
 				everBound[ps.g] = true
@@ -718,8 +793,26 @@ func TestVerifC04Plugin(t *testing.T) {
 				})
 				barrierPods()
 			})
-			ps.added, ps.bound, ps.seenNode = false, false, false
+			ps.added, ps.bound, ps.seenNode, ps.inAPI, ps.gone = false, false, false, false, true
 			h.Tag("op:poddel")
+			finish(0, ps, 9, fwB, pan)
+		}
+		// the delete as a re-list would deliver it: every handler registered on the pod informer gets
+		// OnDelete(DeletedFinalStateUnknown{Key, Obj: the API's last object}); the API object stays for now
+		doPodTomb := func(ps *c04pPod) {
+			fwB := begin()
+			h.Op("poddel %d %d 1", ps.id, ps.g)
+			pan := h.Guard(func() {
+				last, err := su.cs.CoreV1().Pods(ns).Get(ctx, fmt.Sprintf("p%d", ps.id), metav1.GetOptions{})
+				if err != nil {
+					panic(err)
+				}
+				for _, eh := range su.podCap.handlers() {
+					eh.OnDelete(k8scache.DeletedFinalStateUnknown{Key: ns + "/" + last.Name, Obj: last})
+				}
+			})
+			ps.added, ps.bound, ps.seenNode, ps.gone = false, false, false, true
+			h.Tag("op:poddel-tombstone")
 			finish(0, ps, 9, fwB, pan)
 		}
 		schedPod := func(ps *c04pPod) *corev1.Pod {
@@ -732,6 +825,7 @@ func TestVerifC04Plugin(t *testing.T) {
 		}
 		doPermit := func(ps *c04pPod) {
 			pod := schedPod(ps)
+			ps.gone = false
 			fwB := begin()
 			h.Op("permit %d %d", ps.id, ps.g)
 			verdict := -1
@@ -761,6 +855,7 @@ func TestVerifC04Plugin(t *testing.T) {
 		}
 		doUnreserve := func(ps *c04pPod) {
 			pod := schedPod(ps)
+			ps.gone = false
 			fwB := begin()
 			// the framework: WaitOnPermit of this pod returned (timeout / rejection) before Unreserve runs
 			if su.fh.GetWaitingPod(pod.UID) != nil {
@@ -775,6 +870,7 @@ func TestVerifC04Plugin(t *testing.T) {
 		}
 		doPostBind := func(ps *c04pPod) {
 			pod := schedPod(ps)
+			ps.gone = false
 			fwB := begin()
 			h.Op("postbind %d %d", ps.id, ps.g)
 			_, present := prev[ps.g]
@@ -788,6 +884,7 @@ func TestVerifC04Plugin(t *testing.T) {
 		}
 		doPostFilter := func(ps *c04pPod) {
 			pod := schedPod(ps)
+			ps.gone = false
 			fwB := begin()
 			h.Op("postfilter %d %d", ps.id, ps.g)
 			pan := h.Guard(func() { su.plugin.AfterPostFilter(ctx, framework.NewCycleState(), pod, nil, nil) })
@@ -823,6 +920,21 @@ func TestVerifC04Plugin(t *testing.T) {
 			}
 		}
 		for step, nOps := 0, r.Range(6, 22); step < nOps; step++ {
+			if tomb && r.Chance(1, 5) {
+				// a member that holds resources (parked, released or bound) vanishes; mostly noticed on re-list
+				ps := pick(func(x *c04pPod) bool { return x.added && isChild(x) && (x.flight == 1 || x.flight == 2 || x.bound) })
+				if ps == nil {
+					ps = pick(func(x *c04pPod) bool { return x.added && isChild(x) })
+				}
+				switch {
+				case ps == nil:
+				case r.Chance(2, 3):
+					doPodTomb(ps)
+				default:
+					doPodDel(ps)
+				}
+				continue
+			}
 			switch w := r.Intn(100); {
 			case w < 8:
 				g := r.Intn(nG)
@@ -836,7 +948,11 @@ func TestVerifC04Plugin(t *testing.T) {
 				}
 			case w < 18:
 				if ps := pick(func(x *c04pPod) bool { return !x.added }); ps != nil {
-					doPodEvt(ps, false, false)
+					if ps.inAPI {
+						doPodDel(ps) // the object of a pod whose delete was noticed on re-list finally leaves the API: a plain delete event
+					} else {
+						doPodEvt(ps, false, false)
+					}
 				}
 			case w < 55:
 				ps := pick(func(x *c04pPod) bool { return x.added && !x.bound && x.flight == 0 && isChild(x) })
@@ -890,7 +1006,7 @@ func TestVerifC04Plugin(t *testing.T) {
 			}
 		}
 		for _, x := range pods {
-			if x.added {
+			if x.added || x.inAPI {
 				_ = su.cs.CoreV1().Pods(ns).Delete(ctx, fmt.Sprintf("p%d", x.id), metav1.DeleteOptions{})
 			}
 		}
@@ -911,6 +1027,8 @@ func TestVerifC04Plugin(t *testing.T) {
 	h.Close("plugin harness: New() inside a real scheduler framework runtime (its own waiting-pod map), events through fake clientsets + the informers " +
 		"wired by NewPodGroupManager; history = arrival of 1-3 gangs (PodGroup or pod-annotation way, all shapes of the groups annotation) then 6-22 " +
 		"protocol-respecting informer events and Permit / Unreserve / PostBind / AfterPostFilter calls through the framework; " +
+		fmt.Sprintf("plus a tombstone stream of %d cases: members that hold resources vanish more often and two deletes out of three are handed to the handlers registered on the "+
+			"(captured, running) pod informer as a re-list tombstone (DeletedFinalStateUnknown by value around the API's last object), the API object leaving later; ", nTomb) +
 		"non-trivial = at least two members released or one strict-mode rejection that hit a waiting pod")
 	_ = core.Name
 }
